@@ -616,7 +616,11 @@ def rule_parsers(run, prog):
         out = sim.call("get_next_token")
         return sim, toks, out
 
+    from ..lexsim import parsers_hook_works
     try:
+        if not parsers_hook_works(prog):
+            raise Undecided("get_next_token does not select its sub-parsers by walking self.parsers: the stub scenarios cannot be "
+                            "planted (the real sub-parsers are decided by R-10.4 / R-12.1 / R-7.5)")
         # (a) some sub-parser matches: the parsers before it were tried in order, its token is returned, nothing is reported
         for k in range(n):
             for matching in ({k}, set(range(k, n))):
@@ -697,3 +701,31 @@ def rule_identifier_text(run, prog):
         raise Undecided(f"Lexer.parse_identifier is outside the evaluable subset: {why}")
     run.ob("R-10.8", f"{pi.key}::spelling-kept", ok,
            f"the characters of an identifier are dropped: {why}: the token stream no longer reproduces the input", pi.node)
+    rule_escape_units(run, prog)
+
+
+def rule_escape_units(run, prog):
+    run.rule("R-10.9", "an escape sequence is consumed as what it returns: Lexer.pop(use_escape=True), interpreted on a backslash "
+             "followed by every ASCII letter, digit or punctuation character and then 0..8 hexadecimal digits and a quote, returns "
+             "exactly the raw characters it has moved the cursor over (or raises): nothing behind a short \\x / \\u / octal escape "
+             "is skipped without being part of the token", floor=1)
+    import string as _s
+    pop = prog.method("Lexer", "pop")
+    run.require(pop is not None, "anchor vanished: Lexer.pop")
+    bad, n = None, 0
+    try:
+        for lead in _s.ascii_letters + _s.digits + "'\"?\\ ":
+            for k in range(0, 9):
+                src = "\\" + lead + "1a2B3c4D"[:k] + "\"; z"
+                n += 1
+                sim = LexerSim(prog, src)
+                out = sim.call("pop", use_escape=True)
+                if out.kind != "ok":
+                    continue                      # an exception: the literal sub-parsers turn it into a diagnostic (R-5.2)
+                if out.value != src[:sim.pos] and bad is None:
+                    bad = (src, out.value, sim.pos)
+    except Unsupported as e:
+        raise Undecided(f"Lexer.pop is outside the evaluable subset: {e}")
+    run.ob("R-10.9", f"{pop.key}::escape-units", bad is None,
+           (f"pop(use_escape=True) on {bad[0]!r} returns {bad[1]!r} but moves the cursor to offset {bad[2]} ({bad[0][:bad[2]]!r}): "
+            f"{bad[2] - len(bad[1])} character(s) are in no token") if bad else "", pop.node, evaluations=n)
